@@ -10,7 +10,10 @@
 (***************************************************************************)
 EXTENDS Auth, TLC
 
-CONSTANTS Keys, AttackerKey, Serials, Uids, Lvls, Feats, Lives, MaxNow, MaxIssued
+CONSTANTS Keys, AttackerKey, Serials, Uids, Lvls, Feats, Lives, MaxNow, MaxIssued,
+          Identities   \* the <<uid, level, features>> the server issues tokens for (presented tokens range over all combinations)
+
+MCIdentities == {<<"u1", 20, 0>>, <<"u2", 20, 2>>, <<"u1", 40, 0>>}   \* cfg: Identities <- MCIdentities
 
 VARIABLES cfg, now, issued
 vars == <<cfg, now, issued>>
@@ -30,7 +33,7 @@ Tick == now < MaxNow /\ now' = now + 1 /\ UNCHANGED <<cfg, issued>>
 Rekey(k) == k # cfg.key /\ cfg' = [cfg EXCEPT !.key = k] /\ UNCHANGED <<now, issued>>
 SetSerial(s) == s # cfg.serial /\ SerialOk(s) /\ cfg' = [cfg EXCEPT !.serial = s] /\ UNCHANGED <<now, issued>>
 
-Recs == [uid : Uids, lvl : Lvls, feat : Feats, exp : {T(now + l) : l \in Lives} \cup {Past}]
+Recs == {[uid |-> id[1], lvl |-> id[2], feat |-> id[3], exp |-> e] : id \in Identities, e \in {T(now + l) : l \in Lives} \cup {Past}}
 
 Next == \/ \E rec \in Recs : IssueTok(rec)
         \/ Tick
